@@ -18,6 +18,11 @@ reference model in c19_model.py.  No random choice anywhere.
                        depth < D; in states of depth D every read and query is still applied
                        (so the last accepted operation is always followed by a full comparison)
 
+Tiers: quick = depth 6, LIST indices -1..5; thorough = depth 9, LIST indices -1..7; both use three
+distinct legal values a, b, c, an equal-but-distinct 'a again', wrong-typed values and None.
+A construction whose frontier becomes empty before the depth bound has a CLOSED state space
+(the verdict then holds for histories of any length); the number of such constructions is reported.
+
 Environment: VERIF_C19_PKG = directory that contains the `stepcode` package
 (default /repo/src/exp2python/python); used for the mutation demonstration.
 """
@@ -492,14 +497,17 @@ def _explore(cx, R):
                         nxt.append((hist + (op,), m2, s2))
                     if changed:
                         obj = replay_obj(cx, hist, B)
-            # determinism: the same history replayed again gives the same public answers
+            # determinism: the same history replayed once more on another fresh object gives
+            # the same snapshot and the same public answers
             obj2 = replay_obj(cx, hist, B)
+            if snap(obj2, B) != sn:
+                raise AssertionError('non-deterministic replay (2): %s %s' % (cx_text(cx), hist))
             again = []
             for op in obs:
                 r2 = execute(obj2, op, B)
                 again.append(judge_step(cx, model, ms, op, r2, B)[4])
-            if snap(obj2, B) != sn and not any(k.endswith(('state-changed-by-read', 'state-changed-by-query')) for k in R.viol):
-                raise AssertionError('non-deterministic replay (2): %s %s' % (cx_text(cx), hist))
+                if snap(obj2, B) != sn:          # a read/query that mutates: already reported above
+                    obj2 = replay_obj(cx, hist, B)
             if again != first_obs:
                 raise AssertionError('non-deterministic answers: %s %s: %s vs %s' % (cx_text(cx), hist, first_obs, again))
         R.levels = depth
